@@ -29,6 +29,11 @@ type c04Path struct {
 	Path []uint32 `json:"path"`
 	// NeuterAt: -1 = private all the way; k >= 0 = neuter after k steps and continue publicly
 	NeuterAt int `json:"neuter_at"`
+	// Before: indices derived FIRST from the very key object that then derives the last step of the
+	// path (their results are dropped); Observe: String/Address/ECPubKey/Neuter are called on that
+	// object first.  A derivation must not depend on what the parent object was used for before.
+	Before  []uint32 `json:"siblings_derived_first,omitempty"`
+	Observe bool     `json:"parent_observed_first,omitempty"`
 }
 
 var c04Indices = []uint32{0, 1, 2, 1<<31 - 1, 1 << 31, 1<<31 + 1, 1<<32 - 1}
@@ -150,6 +155,18 @@ func c04EvalPath(w *mc.W, cas c04Path) {
 		for step, idx := range cas.Path {
 			// expected status from the reference
 			cx, st, ckey := c04RefChild(rkey, x, idx)
+			if step == len(cas.Path)-1 {
+				if cas.Observe {
+					_ = k.String()
+					k.Address(net)
+					k.ECPubKey()
+					k.Neuter()
+				}
+				for _, b := range cas.Before {
+					k.Child(b)
+					w.Trans()
+				}
+			}
 			ck, err := k.Child(idx)
 			w.Trans()
 			switch st {
@@ -345,7 +362,32 @@ func runC04(c *mc.Ctx) {
 		maxd = mc.Pick(c, 2, 2)
 		rec(s, "mainnet", nil)
 	}
-	c.Space("paths over the index alphabet (with every neutering point)", int64(len(cases)))
+	// (a2) the last step taken from a parent object that was used before: every sibling index derived
+	// first (also the same index, and two siblings), with and without the observers; paths of length
+	// 1..2 from the first seed, private and neutered at every point
+	{
+		var extra []c04Path
+		for _, cs := range cases {
+			if cs.Seed != seeds[0] || len(cs.Path) < 1 || len(cs.Path) > 2 {
+				continue
+			}
+			for _, b := range c04Indices {
+				for _, obs := range []bool{false, true} {
+					e := cs
+					e.Before, e.Observe = []uint32{b}, obs
+					extra = append(extra, e)
+				}
+				e := cs
+				e.Before = []uint32{b, c04Indices[(len(cs.Path)+int(b%5))%len(c04Indices)]}
+				extra = append(extra, e)
+			}
+			e := cs
+			e.Observe = true
+			extra = append(extra, e)
+		}
+		cases = append(cases, extra...)
+	}
+	c.Space("paths over the index alphabet (with every neutering point; last step also from a parent object used before)", int64(len(cases)))
 	c.ParFor(int64(len(cases)), func(w *mc.W, i int64) {
 		w.State()
 		c04EvalPath(w, cases[i])
